@@ -10,33 +10,36 @@ Open Scope Q_scope.
 (* the body of get_threshold, as regenerated from the source, returns exactly the specified closed form
    (correction factor, range clamp of the global threshold, dispatch, second correction factor on the local
    array, band [g*0.7, g*1.5] intersected with the range, low clamp then high clamp, per-object sentinel) *)
-Theorem get_threshold_closed_form : forall (mul : Q -> Q -> Q) inp lo hi,
-  run mul inp get_threshold_prog lo hi = ref_run mul inp lo hi.
+Theorem get_threshold_closed_form : forall (mul amul : Q -> Q -> Q) (cast : Q -> Q) inp lo hi,
+  run mul amul cast inp get_threshold_prog lo hi = ref_run mul amul cast inp lo hi.
 Proof. exact run_eq_ref_lemma. Qed.
 Print Assumptions get_threshold_closed_form.
 
 (* S2: whatever the product, the modifier, the raw thresholds and the correction factor, the global
    threshold returned by the regenerated get_threshold lies within the requested limits (each limit
    may be absent) *)
-Theorem global_in_range : forall (mul : Q -> Q -> Q) inp lo hi l v,
+Theorem global_in_range : forall (mul amul : Q -> Q -> Q) (cast : Q -> Q) inp lo hi l v,
   range_ok lo hi ->
-  run mul inp get_threshold_prog lo hi = Some (l, v) ->
+  run mul amul cast inp get_threshold_prog lo hi = Some (l, v) ->
   exists g, v = VNum g /\ in_range lo hi g.
 Proof. exact global_in_range_lemma. Qed.
 Print Assumptions global_in_range.
 
 (* S3: every local threshold (every pixel that does not carry the per-object sentinel) lies in the
-   range and in the band [g*0.7, g*1.5] computed with the same product — for ANY product [mul] whose
-   two band products bracket g (true of the exact product, next theorem, and of a monotone rounding
-   of it on representable g) *)
-Theorem local_in_band : forall (mul : Q -> Q -> Q) inp lo hi l g,
+   range and in the band [g*0.7, g*1.5] computed with the same product — for ANY scalar product [mul] whose
+   two band products bracket g (exact product: next theorem; binary64 product: fmul_band_bracket), any
+   array product [amul] and any monotone conversion [cast] of stored scalars to the array's dtype (identity
+   for float64 arrays; rounding to binary32 for the float32 array of per-object mode on a float32 image:
+   the limits the elements respect are then the limits ROUNDED to binary32) *)
+Theorem local_in_band : forall (mul amul : Q -> Q -> Q) (cast : Q -> Q) inp lo hi l g,
+  (forall a b, a <= b -> cast a <= cast b) ->
   lo <= hi ->
-  run mul inp get_threshold_prog (Some lo) (Some hi) = Some (l, VNum g) ->
+  run mul amul cast inp get_threshold_prog (Some lo) (Some hi) = Some (l, VNum g) ->
   mul g band_lo <= g -> g <= mul g band_hi ->
   match l with
   | VNum t => lo <= t /\ t <= hi
   | VArr ts => forall i t, nth_error ts i = Some t -> unlabelled inp i = false ->
-                           (lo <= t /\ t <= hi) /\ in_band mul g t
+                           in_range_cast cast lo hi t /\ in_band_cast mul cast g t
   | VNone => False
   end.
 Proof. exact local_in_band_lemma. Qed.
@@ -44,7 +47,7 @@ Print Assumptions local_in_band.
 
 Theorem local_in_band_exact : forall inp lo hi l g,
   0 <= lo -> lo <= hi ->
-  run Qmult inp get_threshold_prog (Some lo) (Some hi) = Some (l, VNum g) ->
+  run Qmult Qmult (fun q => q) inp get_threshold_prog (Some lo) (Some hi) = Some (l, VNum g) ->
   match l with
   | VNum t => lo <= t /\ t <= hi
   | VArr ts => forall i t, nth_error ts i = Some t -> unlabelled inp i = false ->
@@ -55,9 +58,9 @@ Proof. exact local_in_band_exact_lemma. Qed.
 Print Assumptions local_in_band_exact.
 
 (* adaptive / per-object mode without both limits raises (max(None, x)): model and code reject alike *)
-Theorem array_modifiers_need_both_limits : forall (mul : Q -> Q -> Q) md cf raw_g raw_l lab0 lo hi,
+Theorem array_modifiers_need_both_limits : forall (mul amul : Q -> Q -> Q) (cast : Q -> Q) md cf raw_g raw_l lab0 lo hi,
   md <> MGlobal -> lo = None \/ hi = None ->
-  run mul (mkIn md cf raw_g raw_l lab0) get_threshold_prog lo hi = None.
+  run mul amul cast (mkIn md cf raw_g raw_l lab0) get_threshold_prog lo hi = None.
 Proof. exact run_array_none. Qed.
 Print Assumptions array_modifiers_need_both_limits.
 
@@ -87,9 +90,10 @@ Proof. exact random_streams_seeded_lemma. Qed.
 Print Assumptions random_streams_seeded.
 
 (* soundness of the checker that is evaluated on get_threshold's actual return values *)
-Theorem check_thresholds_sound : forall (mul : Q -> Q -> Q) lo hi g band ts,
-  check_thresholds mul lo hi g band ts = true ->
-  in_range lo hi g /\ Forall (fun t => in_range lo hi t /\ (band = true -> in_band mul g t)) ts.
+Theorem check_thresholds_sound : forall (mul : Q -> Q -> Q) (cast : Q -> Q) lo hi g band ts,
+  check_thresholds mul cast lo hi g band ts = true ->
+  in_range lo hi g /\
+  Forall (fun t => in_range (cast_opt cast lo) (cast_opt cast hi) t /\ (band = true -> in_band_cast mul cast g t)) ts.
 Proof. exact check_thresholds_sound_lemma. Qed.
 Print Assumptions check_thresholds_sound.
 
